@@ -228,6 +228,36 @@ type MockTableHandler struct {
 	name string
 }
 
+// cloneValue deep-copies the maps and slices a record is made of. Records are
+// copied on their way into and out of the mock store so that a caller never
+// shares memory with the stored data: a request that changes a record it
+// fetched must not change the store, and encoding a fetched record must not
+// race with another request updating it.
+func cloneValue(v interface{}) interface{} {
+	switch x := v.(type) {
+	case map[string]interface{}:
+		return cloneRecord(x)
+	case []interface{}:
+		out := make([]interface{}, len(x))
+		for i, e := range x {
+			out[i] = cloneValue(e)
+		}
+		return out
+	}
+	return v
+}
+
+func cloneRecord(record map[string]interface{}) map[string]interface{} {
+	if record == nil {
+		return nil
+	}
+	out := make(map[string]interface{}, len(record))
+	for k, v := range record {
+		out[k] = cloneValue(v)
+	}
+	return out
+}
+
 // All retrieves all records
 func (m *MockTableHandler) All() []interface{} {
 	m.db.mu.RLock()
@@ -236,7 +266,7 @@ func (m *MockTableHandler) All() []interface{} {
 	data := m.db.data[m.name]
 	result := make([]interface{}, len(data))
 	for i, v := range data {
-		result[i] = v
+		result[i] = cloneRecord(v)
 	}
 	return result
 }
@@ -262,7 +292,7 @@ func (m *MockTableHandler) Get(id interface{}) interface{} {
 
 	for _, record := range m.db.data[m.name] {
 		if sameID(record["id"], id) {
-			return record
+			return cloneRecord(record)
 		}
 	}
 	return nil
@@ -278,7 +308,7 @@ func (m *MockTableHandler) Create(data map[string]interface{}) map[string]interf
 		data["id"] = int64(len(m.db.data[m.name]) + 1)
 	}
 
-	m.db.data[m.name] = append(m.db.data[m.name], data)
+	m.db.data[m.name] = append(m.db.data[m.name], cloneRecord(data))
 	return data
 }
 
@@ -291,10 +321,10 @@ func (m *MockTableHandler) Update(id interface{}, data map[string]interface{}) m
 		if sameID(record["id"], id) {
 			// Merge data
 			for k, v := range data {
-				record[k] = v
+				record[k] = cloneValue(v)
 			}
 			m.db.data[m.name][i] = record
-			return record
+			return cloneRecord(record)
 		}
 	}
 	return nil
@@ -350,7 +380,7 @@ func (m *MockTableHandler) Filter(column string, value interface{}) []interface{
 	result := make([]interface{}, 0)
 	for _, record := range m.db.data[m.name] {
 		if valuesMatch(record[column], value) {
-			result = append(result, record)
+			result = append(result, cloneRecord(record))
 		}
 	}
 	return result
